@@ -272,4 +272,7 @@ def obligations(tier):
             assumes=["SMTP DATA stream of exactly N arbitrary bytes"], outside=["counts above 1 or 2 (uniform loop)"],
             claim="blast()'s hop counter equals the number of Received/Delivered-To header lines of the message it stores",
             expect_witnesses=["aborted", "complete", "one_hop"]))
+    # a client disconnect or stall at any byte is never mistaken for the end of the message or for a successful write: the daemons' saferead()/
+    # safewrite() wrappers and the timeout units below them (harness/C09/safeio.c, timeout_rw.c)
+    from vlib import borrow; obls += borrow("C09", ["timeoutread_unit", "timeoutwrite_unit", "smtpd_safeio"], tier)
     return obls
